@@ -15,7 +15,8 @@ Notation resolve := (resolve a b m S build).
 Lemma compile_fee st f r st' :
   compile st f = Ok (r, st') -> c_fee r = a * c_len r + b + m /\ c_body_fee r = f.
 Proof.
-  unfold Loop.compile. destruct (build st f) as [[[len pid] s']| | |]; cbn; intros H; try discriminate.
+  unfold Loop.compile. destruct (build st f) as [[[len pid] s']| | |]; cbn [obind]; intros H; try discriminate.
+  destruct (a * len + b + m <? 2 ^ 64); [|discriminate].
   injection H as <- <-. cbn. split; reflexivity.
 Qed.
 
@@ -73,7 +74,8 @@ Definition produced (r : compiled) : Prop :=
 
 Lemma compile_produced st f r st' : compile st f = Ok (r, st') -> produced r.
 Proof.
-  unfold Loop.compile. destruct (build st f) as [[[len pid] s']| | |] eqn:E; cbn; intros H; try discriminate.
+  unfold Loop.compile. destruct (build st f) as [[[len pid] s']| | |] eqn:E; cbn [obind]; intros H; try discriminate.
+  destruct (a * len + b + m <? 2 ^ 64); [|discriminate].
   injection H as <- <-. exists st, len, s'. cbn. exact E.
 Qed.
 
@@ -128,10 +130,11 @@ Proof.
   intros Hind. induction n as [|n IH]; intros s1 s2 last; cbn [Loop.resolve_loop]; [split; reflexivity|].
   unfold Loop.eval_pass, Loop.compile. specialize (Hind s1 s2 (fee_of last)).
   destruct (build s1 (fee_of last)) as [[[l1 p1] t1]| | |], (build s2 (fee_of last)) as [[[l2 p2] t2]| | |];
-    cbn; try exact Hind; try contradiction.
+    cbn [obind]; try exact Hind; try contradiction.
   destruct Hind as [-> ->].
-  destruct last as [l|]; cbn.
-  - destruct (compiled_eqb _ l); cbn; [split; reflexivity | apply IH].
+  destruct (a * l2 + b + m <? 2 ^ 64); cbn [obind]; [|exact I].
+  destruct last as [l|]; cbn [obind].
+  - destruct (compiled_eqb _ l); cbn [obind]; [split; reflexivity | apply IH].
   - apply IH.
 Qed.
 End Proofs.
